@@ -179,6 +179,7 @@ Inductive val :=
 | VBool (b : bool)
 | VInt (z : Z)
 | VRat (n : Z) (d : positive)     (* a float; the exact rational it must round *)
+| VTsNear (n : Z) (d : positive)  (* a timespan obtained by rounding a float near n/d to whole microseconds *)
 | VErr (e : err).
 
 Definition in_range (w : Z) : bool := (0 <=? w) && (w <? MAXWALL).
@@ -276,6 +277,33 @@ Definition y_tsop (o : tsop) (a b : Z) : val :=
   | TPos => VTs a
   end.
 
+(* timespan * number, number * timespan, timespan / number.
+   The code computes  microseconds(ts) * n  (exact when n is an integer, a float product
+   otherwise) resp.  microseconds(ts) / n  (true division: always a float quotient) and hands
+   the result to timedelta(microseconds = ...), which rounds a float to the nearest whole
+   microsecond (ties to even).  The model states the exact rational q; [VTsNear q] admits the
+   timespans r with |r - q| <= 1/2 + |q| * 2^-51  (rounding to a microsecond + the float error
+   of the product / quotient, including the int -> float conversion of a large count). *)
+Inductive number := NInt (k : Z) | NFloat (n : Z) (d : positive).     (* a float is n/d exactly *)
+Definition ts_near (r n : Z) (d : positive) : bool :=
+  Z.abs (r * Zpos d - n) * 4503599627370496 <=? Zpos d * 2251799813685248 + 2 * Z.abs n.
+Definition near_ts (n : Z) (d : positive) : val :=
+  (* the exact quotient must be a representable timespan (with a microsecond to spare) *)
+  if ts_in_range (n / Zpos d - 1) && ts_in_range (n / Zpos d + 2) then VTsNear n d else VErr RangeErr.
+Definition y_ts_mul (t : Z) (x : number) : val :=
+  match x with
+  | NInt k => mk_ts (t * k)
+  | NFloat n d => near_ts (t * n) d
+  end.
+Definition y_ts_div (t : Z) (x : number) : val :=
+  match x with
+  | NInt 0 | NFloat 0 _ => VErr ZeroDiv
+  | NInt (Zpos k) => near_ts t k
+  | NInt (Zneg k) => near_ts (- t) k
+  | NFloat (Zpos n) d => near_ts (t * Zpos d) n
+  | NFloat (Zneg n) d => near_ts (- t * Zpos d) n
+  end.
+
 (* one yaql call on host data *)
 Inductive op :=
 | OpFromTimestamp (s o : Z)                 (* datetime(timestamp, offset), timestamp given in microseconds *)
@@ -295,7 +323,10 @@ Inductive op :=
 | OpUnit (u : unit_) (t : Z)
 | OpTimespan (d h m s ms us : Z)
 | OpTsCmp (c : cmp) (a b : Z)
-| OpTsOp (o : tsop) (a b : Z).
+| OpTsOp (o : tsop) (a b : Z)
+| OpTsMul (t : Z) (x : number)              (* ts * n *)
+| OpTsMulR (x : number) (t : Z)             (* n * ts *)
+| OpTsDiv (t : Z) (x : number).             (* ts / n *)
 
 Definition eval_with (D : decls) (o : op) : val :=
   match o with
@@ -317,6 +348,9 @@ Definition eval_with (D : decls) (o : op) : val :=
   | OpTimespan d h m s ms us => y_timespan d h m s ms us
   | OpTsCmp c a b => VBool (z_cmp c a b)
   | OpTsOp o a b => y_tsop o a b
+  | OpTsMul t x => y_ts_mul t x
+  | OpTsMulR x t => y_ts_mul t x
+  | OpTsDiv t x => y_ts_div t x
   end.
 Definition eval := eval_with repaired_decls.
 
@@ -343,6 +377,7 @@ Definition obs_match (v : val) (o : obs) : bool :=
   | VBool a, OBool b => Bool.eqb a b
   | VInt a, OInt b => a =? b
   | VRat n d, OFloat fn fd => float_close fn fd n d
+  | VTsNear n d, OTs r => ts_near r n d
   | VErr a, OErr b => err_eqb a b
   | _, _ => false
   end.
